@@ -3,7 +3,7 @@
 usage: reftest.py [<base-commit> <dir>...]   (default: every /verif/refactors/Cxx-rN, base 3a35781)   → prints SILENT / ALARM per patch"""
 import json, os, subprocess, sys, glob, tempfile, shutil
 ROOT = os.path.dirname(os.path.dirname(os.path.abspath(__file__)))
-SCR = "/tmp/mrepo"
+SCR = os.environ.get("VERIF_SCR", "/tmp/mrepo")
 def sh(c): return subprocess.run(c, shell=True, capture_output=True, text=True)
 base = sys.argv[1] if len(sys.argv) > 1 else "3a35781"
 dirs = sys.argv[2:] or sorted(glob.glob(ROOT + "/refactors/*"))
